@@ -74,3 +74,46 @@ Qed.
 
 Lemma parse_one_short puf allow s x : (length x < 2)%nat -> parse_one puf allow s x = StErr (PErr (NIncomplete EIncomplete) x) s.
 Proof. intro H. unfold parse_one. now rewrite u_s_short. Qed.
+
+(* ---- the dispatch table, as a function on every version number ---- *)
+Lemma version_kind_spec v :
+  version_kind v = if v =? 5 then Some K5 else if v =? 7 then Some K7
+                   else if v =? 9 then Some K9 else if v =? 10 then Some K10 else None.
+Proof.
+  unfold version_kind, version_dispatch. cbn [assoc_str].
+  destruct (v =? 5); [reflexivity|]. destruct (v =? 7); [reflexivity|].
+  destruct (v =? 9); [reflexivity|]. destruct (v =? 10); reflexivity.
+Qed.
+
+Lemma version_kind_inv v k : version_kind v = Some k ->
+  match k with K5 => v = 5 | K7 => v = 7 | K9 => v = 9 | K10 => v = 10 end.
+Proof.
+  rewrite version_kind_spec.
+  destruct (v =? 5) eqn:E5; [intro H; inversion H; now apply N.eqb_eq|].
+  destruct (v =? 7) eqn:E7; [intro H; inversion H; now apply N.eqb_eq|].
+  destruct (v =? 9) eqn:E9; [intro H; inversion H; now apply N.eqb_eq|].
+  destruct (v =? 10) eqn:E10; [intro H; inversion H; now apply N.eqb_eq|discriminate].
+Qed.
+
+(* every way parse_one can report a packet *)
+Inductive ok_step (puf : bool) (s : pstate) (body : bytes) : elem -> bytes -> pstate -> N -> Prop :=
+| OkV5 p rest : parse_v5 body = Ok p rest -> ok_step puf s body (PV5 p) rest s 5
+| OkV7 p rest : parse_v7 body = Ok p rest -> ok_step puf s body (PV7 p) rest s 7
+| OkV9 p rest s9 : parse_v9 puf (st9 s) body = (Ok p rest, s9) ->
+                   ok_step puf s body (PV9 p) rest {| st9 := s9; stx := stx s |} 9
+| OkIx p rest sx : parse_ipfix puf (stx s) body = (Ok p rest, sx) ->
+                   ok_step puf s body (PIx p) rest {| st9 := st9 s; stx := sx |} 10.
+
+Lemma parse_one_ok_inv puf allow s x e rest s' :
+  parse_one puf allow s x = StOk e rest s' ->
+  exists v, firstn 2 x = enc 2 v /\ allow v = true /\ ok_step puf s (skipn 2 x) e rest s' v.
+Proof.
+  unfold parse_one. destruct (u_s 2 x) as [v body|k] eqn:Eu; [|discriminate].
+  apply version_word_inv in Eu. destruct Eu as [Hf [-> Hb]].
+  destruct (allow v) eqn:Ea; cbn [negb]; [|discriminate].
+  destruct (version_kind v) as [[]|] eqn:Ek; [| | | |discriminate]; apply version_kind_inv in Ek; subst v; intro H.
+  - destruct (parse_v5 (skipn 2 x)) as [p r|k] eqn:E; inversion H; subst. exists 5. repeat split; auto. now constructor.
+  - destruct (parse_v7 (skipn 2 x)) as [p r|k] eqn:E; inversion H; subst. exists 7. repeat split; auto. now constructor.
+  - destruct (parse_v9 puf (st9 s) (skipn 2 x)) as [[p r|k] s9] eqn:E; inversion H; subst. exists 9. repeat split; auto. now constructor.
+  - destruct (parse_ipfix puf (stx s) (skipn 2 x)) as [[p r|k] sx] eqn:E; inversion H; subst. exists 10. repeat split; auto. now constructor.
+Qed.
